@@ -15,6 +15,7 @@
 #include "convert.h"
 #include "values.h"
 #include "vf.h"
+#include "c_stage.h"
 
 const char *vf_name = "c04_users";
 
@@ -231,8 +232,11 @@ static void case_formats(vf_rng *r)
 
 static uint64_t n_val(void) { return vf_thorough ? 600000 : 60000; }
 static uint64_t n_fmt(void) { return vf_thorough ? 200000 : 20000; }
-uint64_t vf_cases(void) { return n_val() + n_fmt(); }
+static uint64_t n_stg(void) { return vf_thorough ? 300000 : 30000; }
+uint64_t vf_cases(void) { return n_val() + n_fmt() + n_stg(); }
 void vf_case(uint64_t idx, vf_rng *r)
 {
-	if (idx < n_val()) case_values(r); else case_formats(r);
+	if (idx < n_val()) case_values(r);
+	else if (idx < n_val() + n_fmt()) case_formats(r);
+	else stage_history(r, "stage");
 }
